@@ -549,6 +549,8 @@ pub struct Recorder {
     faults: Vec<(String, i64)>,
     counters: std::sync::Mutex<std::collections::HashMap<String, i64>>,
     batch_no: std::sync::atomic::AtomicI64,
+    /// (absolute path, file offset, length) of the writes of the batch in flight, by index
+    batch_writes: std::sync::Mutex<std::collections::HashMap<usize, (String, u64, usize)>>,
 }
 
 impl Recorder {
@@ -559,6 +561,7 @@ impl Recorder {
             faults,
             counters: Default::default(),
             batch_no: std::sync::atomic::AtomicI64::new(-1),
+            batch_writes: Default::default(),
         }
     }
     fn rel(&self, p: &str) -> String {
@@ -575,7 +578,12 @@ impl verif::Hooks for Recorder {
         let e = match ev {
             Io::Write { path, off, data, osync } => Ev::Write { f: self.rel(path), off: *off, data: hex(data), osync: *osync },
             Io::Flush { path } => Ev::Flush { f: self.rel(path) },
-            Io::BatchWrite { path, off, data, idx } => Ev::BatchWrite { f: self.rel(path), off: *off, data: hex(data), idx: *idx },
+            Io::BatchWrite { path, off, data, idx } => {
+                if !self.faults.is_empty() {
+                    self.batch_writes.lock().unwrap().insert(*idx, (path.to_string(), *off, data.len()));
+                }
+                Ev::BatchWrite { f: self.rel(path), off: *off, data: hex(data), idx: *idx }
+            }
             Io::BatchSubmit { n } => {
                 self.batch_no.fetch_add(1, std::sync::atomic::Ordering::SeqCst);
                 Ev::BatchSubmit { n: *n }
@@ -608,6 +616,18 @@ impl verif::Hooks for Recorder {
         let key = format!("cqe:{}:{}", b, idx);
         for (s, v) in self.faults.iter() {
             if *s == key {
+                // Make the injected completion true: the kernel did write everything, so the
+                // bytes the completion denies are taken back (zeroed) in the file: all of
+                // them for a failed write, the tail for a short one.
+                if let Some((path, off, len)) = self.batch_writes.lock().unwrap().get(&idx).cloned() {
+                    let kept = if *v < 0 { 0 } else { (*v as usize).min(len) };
+                    if kept < len {
+                        use std::os::unix::fs::FileExt;
+                        if let Ok(fh) = std::fs::OpenOptions::new().write(true).open(&path) {
+                            let _ = fh.write_all_at(&vec![0u8; len - kept], off + kept as u64);
+                        }
+                    }
+                }
                 return *v as i32;
             }
         }
